@@ -1099,4 +1099,62 @@ theorem reach_run {cfg : Cfg} {s s' : BF} {as : List Act} (hr : BF.Reach cfg s) 
     | none => rw [hs] at h; cases h
     | some q => rw [hs] at h; exact ih (BF.Reach.step hr hs) h
 
+/-! ### the pipe inside BreadthFirst is the BufferedPipe LTS -/
+
+theorem WStep.pipe {cfg sh w a sh' w'} (h : WStep cfg sh w a sh' w') :
+    sh'.pipe = sh.pipe ∨ ∃ pa, sh.pipe.step pa = some sh'.pipe := by
+  cases h
+  case recv s rest hp hb =>
+    right; refine ⟨.send, ?_⟩
+    simp only [Pipe.step, if_neg hp, hb, Shared.setPipe]
+  case submit c rest hp =>
+    right; exact ⟨.recv c, by simp only [Pipe.step, if_pos hp, Shared.setPipe]⟩
+  case fail => right; exact ⟨.cancel, rfl⟩
+  case failSilentFixed hf => right; exact ⟨.cancel, rfl⟩
+  all_goals (left; rfl)
+
+theorem reach_pipe {cfg : Cfg} {s : BF} (h : BF.Reach cfg s) : Pipe.Reach s.sh.pipe := by
+  induction h with
+  | init => exact Pipe.Reach.init
+  | @step s s' a hr hs ih =>
+    cases a with
+    | w i a =>
+      obtain ⟨w, sh', w', hw, hws, rfl⟩ := step_w_inv hs
+      rcases hws.pipe with h | ⟨pa, h⟩
+      · show Pipe.Reach sh'.pipe; rw [h]; exact ih
+      · exact Pipe.Reach.step ih h
+    | cInc => simp only [BF.step] at hs; split at hs <;> try cases hs
+              exact ih
+    | cSubmitRoot =>
+      simp only [BF.step] at hs; split at hs <;> try cases hs
+      next p' hc hp => exact Pipe.Reach.step ih hp
+    | cSubmitRootCancel =>
+      simp only [BF.step] at hs; split at hs <;> try cases hs
+      split at hs <;> try cases hs
+      exact ih
+    | cRecv =>
+      simp only [BF.step] at hs; split at hs <;> try cases hs
+      split at hs <;> try cases hs
+      exact ih
+    | cRecvCancel =>
+      simp only [BF.step] at hs; split at hs <;> try cases hs
+      split at hs <;> try cases hs
+      exact ih
+    | cLoad =>
+      simp only [BF.step] at hs; split at hs <;> try cases hs
+      split at hs <;> cases hs <;> exact ih
+    | cCancel =>
+      simp only [BF.step] at hs; split at hs <;> try cases hs
+      exact Pipe.Reach.step (a := .cancel) ih rfl
+    | cReturn =>
+      simp only [BF.step] at hs; split at hs <;> try cases hs
+      split at hs <;> try cases hs
+      exact ih
+    | pipeExit =>
+      simp only [BF.step] at hs; split at hs <;> try cases hs
+      next p' hp => exact Pipe.Reach.step ih hp
+    | cancel =>
+      simp only [BF.step] at hs; split at hs <;> try cases hs
+      exact Pipe.Reach.step (a := .cancel) ih rfl
+
 end Dawgs.C17
